@@ -381,6 +381,18 @@ def c08_job(chk, rng, i):
         case["rules"].append({"scs": [len(case["scs"]) - 1], "bol": True, "pat": ("chr", 97),
                               "trail": None, "act": []})
     array = (i % 2 == 1)
+    if not array and (i // 2) % 3 == 1:
+        # yyless(n) with n inside a pending yymore() prefix: yytext covers both, so the first n
+        # characters of the prefix stay and the rest of it is scanned again.  %pointer only:
+        # with %array this runs outside the buffer (known finding K06, tag below)
+        for r in case["rules"]:
+            if r["act"] == "|":
+                continue
+            for op in r["act"]:
+                if op[0] == "if":
+                    for n_, o in enumerate(op[4]):
+                        if o[0] == "less":
+                            op[4][n_] = ("less", "abs0", rng.rint(0, 3), o[3])
     ctx = gen.ctx_of(case)
     nsrc = rng.choice([1, 1, 2, 3])
     inputs = []
@@ -436,18 +448,32 @@ def c09_job(chk, rng, i):
         case["scs"].append(("NEVERBOL", True))
         case["rules"].append({"scs": [len(case["scs"]) - 1], "bol": True, "pat": ("chr", 97),
                               "trail": None, "act": []})
+    nl_prefix = mode in (1, 3) and (i // 4) % 3 == 1
+    if nl_prefix:
+        # a yymore() prefix that contains a newline, handed back (in part) by yyless() in the
+        # action of a rule that cannot match a newline itself
+        case["rules"].insert(0, {"scs": None, "bol": False, "trail": None,
+                                 "pat": ("cat", [("ccl", False, [("c", 97), ("c", 98)]), ("chr", 10)]),
+                                 "act": [scripts.cond(rng, [("more",)], 801, 75)]})
+        case["rules"].insert(1, {"scs": None, "bol": False, "trail": None, "pat": ("plus", ("chr", 48)),
+                                 "act": [scripts.cond(rng, [("less", "abs0", rng.rint(0, 2), 803)], 802, 75)]})
+        case["uses"] = sorted(set(case.get("uses", [])) | {"more", "less"})
     case["opts"]["yylineno"] = (i % 10 != 9)      # every tenth case: option off
     ctx = gen.ctx_of(case)
     inputs = []
     for k in range(12):
         s = g.make_input(case, ctx, maxlen=80)
+        if nl_prefix and k % 2 == 0:
+            for _ in range(3):
+                pos = rng.below(len(s) + 1)
+                s = s[:pos] + rng.choice([b"a\n00", b"b\n0", b"a\nb\n000 "]) + s[pos:]
         inputs.append({"sources": [s], "sched": rng.choice([[0], [1], [3]])})
     tb = rotate(i // 3, ["", "-Cem", "-C", "-Cfe", "-CFe"])
     fl = flavour4(i, tb)
     if case["opts"].get("uses_reject") and ("f" in tb or "F" in tb):
         tb = ""
     cfg = {"flavour": fl, "flexargs": lib.tables_args(tb, 8),
-           "opts": {"array": i % 5 == 4 or (mode in (1, 3) and i % 3 != 0)}}
+           "opts": {"array": (i % 5 == 4 or (mode in (1, 3) and i % 3 != 0)) and not nl_prefix}}
     expect_build = std_refusals(tb)
     routes = set()
     for r in case["rules"]:
